@@ -56,6 +56,12 @@ class Cov(np.ndarray):
             txt += "\n"
         return txt
 
+    @property
+    def base(self):
+        # An unpickled array owns its memory and has no base array to refer to
+        base = super().base
+        return self.view(np.ndarray) if base is None else base
+
     def copy(self, frame=None):
         """"""
         new = self.__class__(self.orb, self.base, frame=self.frame)
@@ -68,6 +74,23 @@ class Cov(np.ndarray):
             return
 
         self._data = obj._data.copy()
+
+    def __reduce__(self):
+        """For pickling, see StateVector.__reduce__"""
+        reconstruct, clsinfo, state = super().__reduce__()
+
+        new_state = {
+            "basestate": state,
+            "data": self._data,
+            "orb_frame": self._orb_frame,
+        }
+
+        return reconstruct, clsinfo, new_state
+
+    def __setstate__(self, state):
+        super().__setstate__(state["basestate"])
+        self._data = state["data"]
+        self._orb_frame = state["orb_frame"]
 
     @property
     def frame(self):
